@@ -15,6 +15,7 @@
  */
 #pragma once
 
+#include <unifex/detail/verif_hooks.hpp>
 #include <unifex/config.hpp>
 #include <unifex/get_stop_token.hpp>
 #include <unifex/just_done.hpp>
@@ -55,6 +56,7 @@ struct _op<Receiver, StopTokens...>::type {
 
   void request_stop() noexcept {
     // update state to mark that at least one callback has been called
+    UNIFEX_VERIF_POINT(371);
     auto oldState = callbackState_.exchange(
         _callback_state::AT_LEAST_ONE_CALLED, std::memory_order_acq_rel);
 
@@ -172,6 +174,7 @@ struct _op<Receiver, StopTokens...>::type {
     // previous state was INIT. If the previous state was AT_LEAST_ONE_CALLED,
     // don't change the state, but invoke complete() on behalf of the callback
     // that was invoked
+    UNIFEX_VERIF_POINT(372);
     if (!callbackState_.compare_exchange_strong(
             expected,
             _callback_state::ALL_CONSTRUCTED_NOT_CALLED,
